@@ -9,7 +9,8 @@ Open Scope list_scope.
 
 Definition cls0 : list (list string) := [["a"; "b"]; ["a"; "b"; "c"]; ["pos"; "w"]; ["x"]].
 Definition pri0 : list (nat * (Z * Z)) := map (fun p => (p, (0, 10)%Z)) (seq 0 8).
-Definition cfg_pinned : config := mkConfig cls0 pri0 wrapper_cleanup.
+(* the pinned wrapper: no clean-up on exceptions (Model.wrapper_cleanup = false at the pinned commit) *)
+Definition cfg_pinned : config := mkConfig cls0 pri0 false.
 Definition cfg_repaired : config := mkConfig cls0 pri0 true.
 
 Definition leaf_model (p q : nat) : op := ONew (KModel 0) [("a", VPrior p); ("b", VPrior q)] 0.
@@ -28,11 +29,16 @@ Proof. vm_compute. reflexivity. Qed.
 Lemma poison_fresh : snd (run_query cfg_pinned 2 QCount (fresh (fst (run cfg_pinned h_poison init)))) = Ok (ANat 4).
 Proof. vm_compute. reflexivity. Qed.
 
-Lemma refuted_failing_call : ~ coherent_everywhere cfg_pinned.
+Lemma refuted_failing_call_unrepaired : ~ coherent_everywhere cfg_pinned.
 Proof.
   intros H. specialize (H h_poison 2 QCount). rewrite poison_parent, poison_fresh in H.
   apply app_inv_head in H. discriminate.
 Qed.
+
+(* tied to the constant the correspondence uses: as long as the model of the code does not clean
+   up (which the correspondence run forces while the code does not), the full statement fails *)
+Lemma refuted_failing_call : wrapper_cleanup = false -> ~ coherent_everywhere (mkConfig cls0 pri0 wrapper_cleanup).
+Proof. intros E. rewrite E. exact refuted_failing_call_unrepaired. Qed.
 
 (* the same history on the repaired wrapper *)
 Lemma repaired_poison : guardedb cfg_repaired h_poison init = true
